@@ -299,37 +299,13 @@ class Affine2D(NamedTuple):
         if self.almost_equals(affine_prime):
             return Affine2D.identity(), affine_prime
 
-        a, b, c, d, e, f = self
-        # We need x`, y` such that matrix a b c d 0 0 yields same
-        # result as x, y with a b c d e f
-        # That is:
-        # 1)  ax` + cy` + 0 = ax + cy + e
-        # 2)  bx` + dy` + 0 = bx + dy + f
-        #                   ^ rhs is a known scalar; we'll call r1, r2
-        # multiply 1) by b/a so when subtracted from 2) we eliminate x`
-        # 1)  bx` + (b/a)cy` = (b/a) * r1
-        # 2) - 1)  bx` - bx` + dy` - (b/a)cy` = r2 - (b/a) * r1
-        #         y` = (r2 - (b/a) * r1) / (d - (b/a)c)
-
-        # for the special case of origin (0,0) the math below could be simplified
-        # futher but I keep the expanded version for clarity sake
-        x, y = (0, 0)
-        r1, r2 = self.map_point((x, y))
-        if not almost_equal(a, 0):
-            y_prime = (r2 - r1 * b / a) / (d - b * c / a)
-
-            # Sub y` into 1)
-            # 1) x` = (r1 - cy`) / a
-            x_prime = (r1 - c * y_prime) / a
-        else:
-            # if a == 0 then above gives div / 0. Take a simpler path.
-            # 1) 0x` + cy` + 0 = 0x + cy + e
-            #    y` = y + e/c
-            y_prime = y + e / c
-            # Sub y` into 2)
-            # 2)  bx` + dy` + 0 = bx + dy + f
-            #      x` = x + dy/b + f/b - dy`/b
-            x_prime = x + (d * y / b) + (f / b) - (d * y_prime / b)
+        # We need the translation (x`, y`) such that translating by it and then
+        # applying the 2x2 part lands where the full affine lands:
+        #   affine_prime @ translate(x`, y`) == self
+        # i.e. affine_prime maps (x`, y`) onto (e, f). Solve with the inverse; an
+        # explicit elimination that divides by `a` loses all precision for
+        # rotations near a quarter turn, where `a` is tiny but not zero.
+        x_prime, y_prime = affine_prime.inverse().map_point((self.e, self.f))
 
         # basically this says "by how much do I need to pre-translate things so
         # that when I subsequently apply the 2x2 portion of the original affine
